@@ -37,6 +37,10 @@ REPO = os.environ.get("MINGUS_REPO", "/repo")
 NPROC = int(os.environ.get("VERIF_PROCS", "16"))
 MAX_REPLAYS_PER_CLAUSE = 12      # replay files written / VIOLATION lines printed per clause
 MAX_SAMPLES = 4
+# records kept per worker task and clause (all violations are *counted*); generous when known findings have to be
+# told apart from new violations, small otherwise
+PROBLEM_RECORDS_PER_TASK = 4000 if os.path.exists(os.path.join(VERIF, "known_findings.json")) and \
+    '"status": "open"' in open(os.path.join(VERIF, "known_findings.json")).read() else 200
 
 _real_stdout = sys.stdout
 
@@ -169,6 +173,8 @@ class Stats(object):
         case = self.current_case if case is None else case
         self.problem_counts[clause] += 1
         lst = self.problems.setdefault(clause, [])
+        if len(lst) >= PROBLEM_RECORDS_PER_TASK:
+            return                      # counted; rendering thousands of records only costs time
         rec = {
             "clause": clause,
             "site": site,
@@ -180,10 +186,7 @@ class Stats(object):
             rec["detail"] = jsonable(detail)
         if tags:
             rec["tags"] = jsonable(tags)
-        # keep every record small but keep *all* of them up to a generous cap so that the
-        # known-finding filter sees more than the first few
-        if len(lst) < 4000:
-            lst.append(rec)
+        lst.append(rec)
 
     # -- merging -------------------------------------------------------------------------
     def merge(self, o):
